@@ -69,6 +69,8 @@ class Snapshots:
                     out[f"{kind}[{i}].{f}"] = sha([id(x) for x in v]) if isinstance(v, list) else sha(snap(v))
                 else:
                     out[f"{kind}[{i}].{f}"] = sha(snap(v))
+        for k, q in sorted(self.b.qcache.items()):
+            out[f"qpool[{k}]"] = sha(snap(q))               # quantity instances the caller passed in and still holds
         for n, t in snap_tables().items():
             out["shipped." + n] = sha(t)
         g = snap_globals()
@@ -84,6 +86,9 @@ class Snapshots:
             return {f"weapons[{world['shots'][op['shot']]['weapon']}].zero_elevation"}
         if k == "powder":
             return {f"ammos[{op['ammo']}].temp_modifier"}
+        if k == "edit":
+            f = "drag_table" if op["field"].startswith("CD@") else op["field"]
+            return {f"{op['kind']}[{op['index']}].{f}"}
         if k in ADMIN_OPS:
             return {"globals."}
         return set()
